@@ -48,7 +48,12 @@ pub fn write_replay(ctx: &Ctx, v: &Violation) -> PathBuf {
         v.run
     );
     let path = dir.join(name);
-    let _ = std::fs::write(&path, serde_json::to_string_pretty(&v.to_json()).unwrap());
+    let mut doc = v.to_json();
+    if let Some(r) = ctx.slice_rate {
+        // found with the clock running fast: `replay` puts the process under the same clock
+        doc["clock_rate"] = json!(r);
+    }
+    let _ = std::fs::write(&path, serde_json::to_string_pretty(&doc).unwrap());
     path
 }
 
@@ -139,7 +144,8 @@ pub fn write_evidence(ctx: &Ctx, e: &Evidence) {
             c.insert(k.clone(), v.clone());
         }
     }
-    let hours = (e.wall_s / 3600.0).max(1e-9);
+    let wall_s = e.wall_s;
+    let hours = (wall_s / 3600.0).max(1e-9);
     if let Some(c) = coverage.as_object_mut() {
         c.insert(
             "runs_per_hour".into(),
@@ -153,10 +159,16 @@ pub fn write_evidence(ctx: &Ctx, e: &Evidence) {
         "level": e.level,
         "coverage": coverage,
         "assumptions": e.assumptions,
-        "wall_s": e.wall_s,
+        "wall_s": wall_s,
         "violations": e.violations,
     });
-    let path = dir.join(format!("{}.json", ctx.property));
+    let path = if ctx.slice_rate.is_some() {
+        let d = ctx.verif_dir.join("sim").join("target").join("scratch");
+        let _ = std::fs::create_dir_all(&d);
+        d.join(format!("slice-{}.json", ctx.property))
+    } else {
+        dir.join(format!("{}.json", ctx.property))
+    };
     if let Err(err) = std::fs::write(&path, serde_json::to_string_pretty(&doc).unwrap()) {
         eprintln!("HARNESS-ERROR: cannot write {}: {err}", path.display());
         std::process::exit(2);
@@ -207,4 +219,105 @@ pub fn ddmin<T: Clone>(items: &[T], mut fails: impl FnMut(&[T]) -> bool) -> Vec<
         }
     }
     cur
+}
+
+/// The skewed-clock slice of a check: a child process of the same binary, under the clock
+/// interposer with time running `RATE` times fast, executing a tenth of the runs with its own seed.
+/// Nothing in /repo reads a clock, so on the unchanged tree the slice behaves like any other batch;
+/// code that starts to pace itself by wall-clock time (back-off, rate limits, expiry) sees
+/// milliseconds of work as minutes.
+pub const SKEW_RATE: u64 = 100_000;
+
+pub struct SkewSlice {
+    child: std::process::Child,
+    prop: String,
+}
+
+pub fn spawn_skew_slice(ctx: &Ctx, tier: &str) -> Option<SkewSlice> {
+    if ctx.slice_rate.is_some() {
+        return None;
+    }
+    let so = match crate::clock::build(&ctx.verif_dir) {
+        Some(s) => s,
+        None => {
+            eprintln!("HARNESS-ERROR: cannot build the clock interposer with cc");
+            std::process::exit(2);
+        }
+    };
+    let mut x = ctx.seed ^ 0x5CE3_51CE;
+    let child_seed = crate::prng::splitmix64(&mut x) >> 1;
+    let _ = std::fs::remove_file(ctx.verif_dir.join("sim").join("target").join("scratch").join(format!("slice-{}.json", ctx.property)));
+    let child = std::process::Command::new(std::env::current_exe().ok()?)
+        .args([ctx.property.as_str(), tier])
+        .env("LD_PRELOAD", &so)
+        .env("VERIF_CLOCKSHIM", "1")
+        .env("VERIF_CLOCK_RATE", SKEW_RATE.to_string())
+        .env("VERIF_SLICE", "skew")
+        .env("VERIF_SEED", child_seed.to_string())
+        .env("VERIF_SCALE", format!("{}", ctx.scale * 0.1))
+        .env("VERIF_DIR", &ctx.verif_dir)
+        .stdout(std::process::Stdio::piped())
+        .spawn();
+    match child {
+        Ok(c) => Some(SkewSlice { child: c, prop: ctx.property.clone() }),
+        Err(e) => {
+            eprintln!("HARNESS-ERROR: cannot start the skewed-clock slice: {e}");
+            std::process::exit(2);
+        }
+    }
+}
+
+impl SkewSlice {
+    /// wait for the slice, relay its result lines, fold its summary into the evidence file the
+    /// parent has just written; returns the slice's exit code
+    pub fn finish(self, ctx: &Ctx) -> i32 {
+        let out = match self.child.wait_with_output() {
+            Ok(o) => o,
+            Err(e) => {
+                eprintln!("HARNESS-ERROR: skewed-clock slice: {e}");
+                return 2;
+            }
+        };
+        let text = String::from_utf8_lossy(&out.stdout);
+        for l in text.lines() {
+            if l.starts_with("VIOLATION") || l.starts_with("KNOWN-FINDING") {
+                println!("{l}");
+            } else if !l.starts_with("rqsim property=") {
+                println!("[clock x{SKEW_RATE}] {l}");
+            }
+        }
+        let rc = out.status.code().unwrap_or(2);
+        if rc != 0 && rc != 1 {
+            eprintln!("HARNESS-ERROR: skewed-clock slice exited with {rc}");
+            return 2;
+        }
+        let spath = ctx.verif_dir.join("sim").join("target").join("scratch").join(format!("slice-{}.json", self.prop));
+        let epath = ctx.verif_dir.join("evidence").join(format!("{}.json", self.prop));
+        let slice: Option<Value> = std::fs::read_to_string(&spath).ok().and_then(|t| serde_json::from_str(&t).ok());
+        let ev: Option<Value> = std::fs::read_to_string(&epath).ok().and_then(|t| serde_json::from_str(&t).ok());
+        match (slice, ev) {
+            (Some(sl), Some(mut ev)) => {
+                ev["coverage"]["clock_skew_slice"] = json!({
+                    "what": format!("a tenth of the runs again (own seed {}) in a child process whose clock runs {}x fast (LD_PRELOAD interposer, self-checked)", sl["seed"], SKEW_RATE),
+                    "evaluations": sl["coverage"]["evaluations"],
+                    "distinct_nontrivial": sl["coverage"]["distinct_nontrivial"],
+                    "violations": sl["violations"],
+                    "wall_s": sl["wall_s"],
+                });
+                if let Some(f) = ev["coverage"]["fault_kinds_fired"].as_object_mut() {
+                    f.insert("clock_skew_fast_runs".into(), sl["coverage"]["evaluations"].clone());
+                }
+                if std::fs::write(&epath, serde_json::to_string_pretty(&ev).unwrap()).is_err() {
+                    eprintln!("HARNESS-ERROR: cannot rewrite {}", epath.display());
+                    return 2;
+                }
+            }
+            _ => {
+                eprintln!("HARNESS-ERROR: skewed-clock slice left no summary at {}", spath.display());
+                return 2;
+            }
+        }
+        let _ = std::fs::remove_file(&spath);
+        rc
+    }
 }
